@@ -106,7 +106,8 @@ example : convert Env.simple 4 ⟨.map .string, .smap [] []⟩
 
 /-- Full statement: every placeholder of the result type sits where the input type
 has one too (or at a position the input type does not have).  FALSE of the code —
-see `result_resolves_placeholders_counterexample`. -/
+see `result_resolves_placeholders_unknown_length_counterexample` (the other recorded shape,
+`empty-collection-keeps-nested-placeholder`, is repaired: `empty_collection_resolves_nested_placeholder`). -/
 def ResultResolvesPlaceholders : Prop :=
   ∀ (E : Env) (fuel : Nat) (v r : Value) (want : Ty), UnifyLaws E → Value.wt v = true → want.wf = true →
     convert E fuel v want = .ok r → resolvedIn v.ty r.ty = true
@@ -118,32 +119,94 @@ theorem result_resolves_placeholders_partial (E : Env) (hU : UnifyLaws E) (fuel 
   rw [convert_ty hU hp h, stripOpt_hasDyn]
   exact hp.noDyn
 
-/-- the witness: an *empty* list of maps converted to list(map(placeholder)) keeps the
-placeholder, although a non-empty list of the same type resolves it to bool -/
-theorem result_resolves_placeholders_counterexample :
+/-- REPAIRED (`empty-collection-keeps-nested-placeholder`; this was `result_resolves_placeholders_counterexample`):
+the former witness, an *empty* list of maps converted to list(map(placeholder)), now is a list(map(bool)) —
+like the non-empty list of the same type — and the same for the empty set and the empty map. -/
+theorem result_resolves_placeholders_empty_witness :
     convert Env.simple 4 ⟨.list (.map .bool), .seq []⟩ (.list (.map .dyn)) =
-      .ok ⟨.list (.map .dyn), .seq []⟩ ∧
-    resolvedIn (.list (.map .bool)) (.list (.map .dyn)) = false ∧
+      .ok ⟨.list (.map .bool), .seq []⟩ ∧
+    resolvedIn (.list (.map .bool)) (.list (.map .bool)) = true ∧
     convert Env.simple 6 ⟨.list (.map .bool), .seq [.smap ["k"] [.b true]]⟩ (.list (.map .dyn)) =
-      .ok ⟨.list (.map .bool), .seq [.smap ["k"] [.b true]]⟩ := by
-  refine ⟨rfl, by decide, rfl⟩
-
-theorem resultResolvesPlaceholders_false : ¬ ResultResolvesPlaceholders := by
-  intro h
-  have := h Env.simple 4 ⟨.list (.map .bool), .seq []⟩ _ (.list (.map .dyn)) unifyLaws_simple
-    (by decide) (by decide) result_resolves_placeholders_counterexample.1
-  revert this
-  decide
+      .ok ⟨.list (.map .bool), .seq [.smap ["k"] [.b true]]⟩ ∧
+    convert Env.simple 4 ⟨.set (.map .bool), .sset [] []⟩ (.set (.map .dyn)) =
+      .ok ⟨.set (.map .bool), .sset [] []⟩ ∧
+    convert Env.simple 4 ⟨.map (.list .bool), .smap [] []⟩ (.map (.list .dyn)) =
+      .ok ⟨.map (.list .bool), .smap [] []⟩ := by
+  refine ⟨rfl, by decide, rfl, rfl, rfl⟩
 
 /-! ### the frontier of `ResultResolvesPlaceholders`
 
-Where exactly an empty collection does and does not resolve a placeholder, and the second recorded
-shape (a set whose length is unknown). -/
+What an empty collection resolves (every placeholder, since the repair), and the recorded
+shape that remains (a set whose length is unknown). -/
 
-/-- What does hold for EMPTY collections, for every environment, fuel and element type: a placeholder
-that IS the element type of the target is replaced by the input's element type (list → list,
-set → list, set → set, map → map; list → set in unsafe mode).  Only placeholders NESTED inside the
-element type come back (`result_resolves_placeholders_counterexample`). -/
+/-- The closure bodies for an EMPTY collection, for every environment, fuel, element conversion and
+element types: when the target's element type `ety` has a placeholder ANYWHERE, the result is the
+empty collection of `dynamicReplace(input element type, ety without annotations)` (the code after the
+repair; before it only `ety == DynamicPseudoType` itself was replaced). -/
+theorem empty_collection_element_type (E : Env) (fuel : Nat) (ety ie : Ty) (conv : Plan)
+    (h : ety.hasDyn = true) :
+    apply E (fuel + 1) (.collToList ety conv) ⟨.list ie, .seq []⟩ =
+      (dynRepl E ie ety.stripOpt).bind (fun t => .ok ⟨.list t, .seq []⟩) ∧
+    apply E (fuel + 1) (.collToList ety conv) ⟨.set ie, .sset [] []⟩ =
+      (dynRepl E ie ety.stripOpt).bind (fun t => .ok ⟨.list t, .seq []⟩) ∧
+    apply E (fuel + 1) (.collToSet ety conv) ⟨.set ie, .sset [] []⟩ =
+      (dynRepl E ie ety.stripOpt).bind (fun t => .ok ⟨.set t, .sset [] []⟩) ∧
+    apply E (fuel + 1) (.collToSet ety conv) ⟨.list ie, .seq []⟩ =
+      (dynRepl E ie ety.stripOpt).bind (fun t => .ok ⟨.set t, .sset [] []⟩) ∧
+    apply E (fuel + 1) (.collToMap ety conv) ⟨.map ie, .smap [] []⟩ =
+      (dynRepl E ie ety.stripOpt).bind (fun t => .ok ⟨.map t, .smap [] []⟩) := by
+  refine ⟨?_, ?_, ?_, ?_, ?_⟩ <;>
+    simp [apply, applyStep, h, lengthKnown, elemsOf, setValues, mapRes, elementType, Res.bind,
+      Payload.whollyKnownL]
+
+/-- … hence an EMPTY list / set / map whose element type has no placeholder, converted by the closure
+for a collection target of the same shape (`D08B.covered`, as in `unknown_null_resolve_placeholders_partial`;
+placeholders anywhere in the target's element type, NESTED ones included), is an empty collection
+whose type has NO placeholder: each one was filled from the input's element type.  For every
+environment and fuel.  (Before the repair the nested ones came back.) -/
+theorem empty_collection_resolves_nested_placeholder (E : Env) (fuel : Nat) (ety ie : Ty) (conv : Plan) (r : Value)
+    (hd : Ty.hasDyn ie = false) (hc : D08B.covered ie ety.stripOpt = true)
+    (h : apply E (fuel + 1) (.collToList ety conv) ⟨.list ie, .seq []⟩ = .ok r ∨
+         apply E (fuel + 1) (.collToList ety conv) ⟨.set ie, .sset [] []⟩ = .ok r ∨
+         apply E (fuel + 1) (.collToSet ety conv) ⟨.set ie, .sset [] []⟩ = .ok r ∨
+         apply E (fuel + 1) (.collToSet ety conv) ⟨.list ie, .seq []⟩ = .ok r ∨
+         apply E (fuel + 1) (.collToMap ety conv) ⟨.map ie, .smap [] []⟩ = .ok r) :
+    Ty.hasDyn r.ty = false := by
+  cases hety : ety.hasDyn with
+  | false =>
+    have hs : Ty.hasDyn ety.stripOpt = false := by rw [stripOpt_hasDyn]; exact hety
+    rcases h with h | h | h | h | h <;>
+      (simp [apply, applyStep, hety, lengthKnown, elemsOf, setValues, mapRes, Res.bind,
+        Payload.whollyKnownL] at h
+       subst h
+       simpa [Ty.hasDyn] using hs)
+  | true =>
+    obtain ⟨h1, h2, h3, h4, h5⟩ := empty_collection_element_type E fuel ety ie conv hety
+    rw [h1, h2, h3, h4, h5] at h
+    cases hdr : dynRepl E ie ety.stripOpt with
+    | ok t =>
+      have ht := D08B.dynRepl_noDyn E ie ety.stripOpt t hd hc hdr
+      rw [hdr] at h
+      rcases h with h | h | h | h | h <;>
+        (simp [Res.bind] at h
+         subst h
+         simpa [Ty.hasDyn] using ht)
+    | err _ => rw [hdr] at h; simp [Res.bind] at h
+    | panic _ => rw [hdr] at h; simp [Res.bind] at h
+    | unmodelled => rw [hdr] at h; simp [Res.bind] at h
+
+theorem resultResolvesPlaceholders_false : ¬ ResultResolvesPlaceholders := by
+  intro h
+  have := h Env.simple 4 ⟨.set (.list .string), .sset [1, 2] [.seq [.s "a"], .unk .unref]⟩ _ (.list (.set .dyn))
+    unifyLaws_simple (by decide) (by decide)
+    (show convert Env.simple 4 ⟨.set (.list .string), .sset [1, 2] [.seq [.s "a"], .unk .unref]⟩ (.list (.set .dyn)) =
+      .ok ⟨.list (.set .dyn), .unk .unref⟩ from rfl)
+  revert this
+  decide
+
+/-- The special case of a placeholder that IS the element type of the target (already true before the
+repair), through `convert`, for every environment, fuel and element type: it is replaced by the input's
+element type (list → list, set → list, set → set, map → map; list → set in unsafe mode). -/
 theorem empty_collection_resolves_direct_placeholder (E : Env) (fuel : Nat) (ie : Ty) (h : ie.isDyn = false) :
     convert E (fuel + 2) ⟨.list ie, .seq []⟩ (.list .dyn) = .ok ⟨.list ie, .seq []⟩ ∧
     convert E (fuel + 2) ⟨.set ie, .sset [] []⟩ (.list .dyn) = .ok ⟨.list ie, .seq []⟩ ∧
@@ -194,8 +257,8 @@ theorem unknown_null_resolve_placeholders_partial (E : Env) (fuel : Nat) (uns : 
     | unmodelled => rw [hdr] at h; simp at h
   exact ⟨key, resolvedIn_noDyn _ _ key⟩
 
-/-- the contrast with `result_resolves_placeholders_counterexample`: the UNKNOWN and the NULL list of maps
-of bools, converted to list(map(placeholder)), are a list(map(bool)) — the empty known list is not -/
+/-- like the empty known list (`result_resolves_placeholders_empty_witness`): the UNKNOWN and the NULL list of maps
+of bools, converted to list(map(placeholder)), are a list(map(bool)) -/
 example : D08B.covered (.list (.map .bool)) (.list (.map .dyn)) = true := by decide
 example : convert Env.simple 4 ⟨.list (.map .bool), .unk .unref⟩ (.list (.map .dyn)) =
     .ok ⟨.list (.map .bool), .unk (.coll .u 0 9223372036854775807)⟩ := rfl
@@ -223,65 +286,57 @@ theorem idempotent_partial (E : Env) (hU : UnifyLaws E) (fuel fuel' : Nat) (v r 
     (hp : RegularPair v want) (h : convert E fuel v want = .ok r) : convert E fuel' r want = .ok r :=
   convert_idempotent hU hp h
 
-/-- Full statement of idempotence, placeholders in the target included.  FALSE of the code — see
-`idempotent_counterexample` (recorded finding `idempotent / empty-collection-keeps-nested-placeholder`). -/
+/-- Full statement of idempotence, placeholders in the target included.  NOT PROVEN in this generality:
+the recorded counterexample (`idempotent / empty-collection-keeps-nested-placeholder`) is repaired —
+`idempotent_empty_witness` — and no other is known; what is proven is `idempotent_partial` (targets
+without placeholders) and `idempotent_spelled_out_partial`. -/
 def Idempotent : Prop :=
   ∀ (E : Env) (fuel fuel' : Nat) (v r : Value) (want : Ty), UnifyLaws E → Value.wt v = true → want.wf = true →
     convert E fuel v want = .ok r → convert E fuel' r want = .ok r ∨ convert E fuel' r want = .unmodelled
 
-/-- the witness, in the driver's environment: a tuple of two maps of lists of strings, the second
-EMPTY, converted to list(map(list(placeholder))).  The first conversion unifies the element types
-(`map(list(string))` and the empty map's `map(list(placeholder))`) to `map(list(string))` and
-succeeds; its result conforms to the target; converting the result AGAIN fails, because the empty
-map now takes the target's element type as written and no longer matches its neighbour. -/
-theorem idempotent_counterexample :
+/-- REPAIRED (this was `idempotent_counterexample`), in the driver's environment: a tuple of two maps of
+lists of strings, the second EMPTY, converted to list(map(list(placeholder))).  The first conversion
+gives `list(map(list(string)))`, which conforms to the target; converting the result AGAIN now
+returns it: the empty map takes `dynamicReplace(list(string), list(placeholder)) = list(string)` as its
+element type and matches its neighbour (before the repair: `element types must all match`). -/
+theorem idempotent_empty_witness :
     convert driverEnv 16 ⟨.tuple [.map (.list .string), .map (.list .string)],
         .seq [.smap ["m"] [.seq [.s "x"]], .smap [] []]⟩ (.list (.map (.list .dyn))) =
       .ok ⟨.list (.map (.list .string)), .seq [.smap ["m"] [.seq [.s "x"]], .smap [] []]⟩ ∧
     conformsTo (.list (.map (.list .dyn)))
       ⟨.list (.map (.list .string)), .seq [.smap ["m"] [.seq [.s "x"]], .smap [] []]⟩ = true ∧
     convert driverEnv 16 ⟨.list (.map (.list .string)), .seq [.smap ["m"] [.seq [.s "x"]], .smap [] []]⟩
-        (.list (.map (.list .dyn))) = .err "element types must all match for conversion to list" := by
+        (.list (.map (.list .dyn))) =
+      .ok ⟨.list (.map (.list .string)), .seq [.smap ["m"] [.seq [.s "x"]], .smap [] []]⟩ := by
   refine ⟨rfl, by decide, rfl⟩
-
-theorem idempotent_false : ¬ Idempotent := by
-  intro h
-  have := h driverEnv 16 16 _ _ _ (Unify.unifyLaws_std (Env.concrete Unify.unifyTy)) (by decide) (by decide) idempotent_counterexample.1
-  rw [idempotent_counterexample.2.2] at this
-  simp at this
 
 /-- Full statement of "a value that already conforms to the requested type converts to itself",
 placeholders in the target included, for values without unknown parts (an unknown converts to an
-unknown that admits it but may carry weaker length bounds).  FALSE of the code — see
-`conforming_converts_to_itself_counterexample`; for targets without placeholders conformance is
+unknown that admits it but may carry weaker length bounds).  NOT PROVEN in this generality: the
+recorded counterexample (`conforming_identity / empty-collection-keeps-nested-placeholder`) is
+repaired — `conforming_converts_to_itself_empty_witness` — and no other is known; what is proven is
+`conforming_converts_to_itself_partial`; for targets without placeholders conformance is
 equality of types up to annotations and `identity` applies. -/
 def ConformingConvertsToItself : Prop :=
   ∀ (E : Env) (fuel : Nat) (v : Value) (want : Ty), UnifyLaws E → Value.wt v = true → want.wf = true →
     Payload.whollyKnown v.v = true → conformsTo want v = true →
     convert E fuel v want = .ok v ∨ convert E fuel v want = .unmodelled
 
-/-- the witness (the consequence of `empty-collection-keeps-nested-placeholder` recorded under
-`idempotent`): a list of two lists of maps, the first EMPTY, conforms to list(list(map(placeholder)))
-but does not convert to it — the empty member becomes a `list(map(placeholder))`, its neighbour a
-`list(map(bool))`, and `ListVal` refuses the mixture.  An error, in every fuel ≥ 4 and in the
-driver's environment too. -/
-theorem conforming_converts_to_itself_counterexample :
+/-- REPAIRED (this was `conforming_converts_to_itself_counterexample`): a list of two lists of maps, the
+first EMPTY, conforms to list(list(map(placeholder))) and now converts to itself — the empty member
+becomes a `list(map(bool))` like its neighbour (before the repair it became a `list(map(placeholder))`
+and `ListVal` refused the mixture).  In the driver's environment too. -/
+theorem conforming_converts_to_itself_empty_witness :
     Value.wt ⟨.list (.list (.map .bool)), .seq [.seq [], .seq [.smap ["k"] [.b true]]]⟩ = true ∧
     conformsTo (.list (.list (.map .dyn)))
       ⟨.list (.list (.map .bool)), .seq [.seq [], .seq [.smap ["k"] [.b true]]]⟩ = true ∧
     convert Env.simple 8 ⟨.list (.list (.map .bool)), .seq [.seq [], .seq [.smap ["k"] [.b true]]]⟩
-      (.list (.list (.map .dyn))) = .err "element types must all match for conversion to list" ∧
+      (.list (.list (.map .dyn))) =
+      .ok ⟨.list (.list (.map .bool)), .seq [.seq [], .seq [.smap ["k"] [.b true]]]⟩ ∧
     convert driverEnv 8 ⟨.list (.list (.map .bool)), .seq [.seq [], .seq [.smap ["k"] [.b true]]]⟩
-      (.list (.list (.map .dyn))) = .err "element types must all match for conversion to list" := by
+      (.list (.list (.map .dyn))) =
+      .ok ⟨.list (.list (.map .bool)), .seq [.seq [], .seq [.smap ["k"] [.b true]]]⟩ := by
   refine ⟨by decide, by decide, rfl, rfl⟩
-
-theorem conformingConvertsToItself_false : ¬ ConformingConvertsToItself := by
-  intro h
-  have := h Env.simple 8 ⟨.list (.list (.map .bool)), .seq [.seq [], .seq [.smap ["k"] [.b true]]]⟩
-    (.list (.list (.map .dyn))) unifyLaws_simple (by decide) (by decide) (by decide)
-    conforming_converts_to_itself_counterexample.2.1
-  rw [conforming_converts_to_itself_counterexample.2.2.1] at this
-  simp at this
 
 /-- What does hold, placeholders anywhere in the target: on lists, maps and tuples nested to any depth
 over primitive leaves, a value that conforms to the target and is SPELLED OUT wherever the target is
@@ -289,8 +344,9 @@ over primitive leaves, a value that conforms to the target and is SPELLED OUT wh
 such members against a tuple type of the same length; anything unmarked below a placeholder of the
 target) converts to itself — for every environment satisfying
 `UnifyLaws`, every fuel (or the model runs out of fuel), by induction over the plans
-`getConversionKnown` builds for such pairs.  The empty collection is exactly what the hypothesis
-excludes, and `conforming_converts_to_itself_counterexample` shows it cannot be dropped. -/
+`getConversionKnown` builds for such pairs.  The empty collection is what the hypothesis
+excludes (it was a counterexample before the repair of `empty-collection-keeps-nested-placeholder`;
+`conforming_converts_to_itself_empty_witness` shows such a value converting to itself now). -/
 theorem conforming_converts_to_itself_partial (E : Env) (hU : UnifyLaws E) (fuel : Nat) (inT want : Ty)
     (p : Payload) (hw : wf inT = true) (hd : hasDyn inT = false) (ho : hasOpt inT = false)
     (hs : D08B.solidFor want inT p = true)
@@ -338,8 +394,8 @@ theorem result_resolves_placeholders_spelled_out_partial (E : Env) (hU : UnifyLa
     exact ⟨rfl, resolvedIn_noDyn _ _ hd⟩
   · rw [h1] at h; simp at h
 
-/-- the hypotheses are satisfiable by a nested value and a nested placeholder; the witness of the
-counterexample fails exactly `solidFor` (its first member is an empty list) -/
+/-- the hypotheses are satisfiable by a nested value and a nested placeholder; the former witness
+(`conforming_converts_to_itself_empty_witness`) fails exactly `solidFor` (its first member is an empty list) -/
 example : D08B.solidFor (.list (.list (.map .dyn))) (.list (.list (.map .bool)))
     (.seq [.seq [.smap ["j"] [.b false]], .seq [.smap ["k"] [.b true]]]) = true := by decide
 example : (getConv Env.simple (.list (.list (.map .bool))) (.list (.list (.map .dyn))) true).isSome = true := by decide
@@ -1168,14 +1224,17 @@ theorem safe_sub_unsafe_driver (v : Value) (want : Ty) (p : Plan)
       ∀ fuel, apply driverEnv fuel p' v = apply driverEnv fuel p v :=
   safe_sub_unsafe_partial _ unifyLaws_driver v want p hp hg
 
-/-! The three counterexamples of this file, restated in the driver's environment — the one whose every
+/-! The counterexamples of this file (and the repaired former witness of
+`empty-collection-keeps-nested-placeholder`), restated in the driver's environment — the one whose every
 answer is diffed against the Go code — so that "FALSE of the code" does not rest on a toy
 environment or on a fuel bound chosen by hand. -/
 
-theorem result_resolves_placeholders_counterexample_driver :
+/-- REPAIRED (this was `result_resolves_placeholders_counterexample_driver`; the counterexample that
+remains, `result_resolves_placeholders_unknown_length_counterexample`, has its driver half inside) -/
+theorem result_resolves_placeholders_empty_witness_driver :
     convert driverEnv 4 ⟨.list (.map .bool), .seq []⟩ (.list (.map .dyn)) =
-      .ok ⟨.list (.map .dyn), .seq []⟩ ∧
-    resolvedIn (.list (.map .bool)) (.list (.map .dyn)) = false ∧
+      .ok ⟨.list (.map .bool), .seq []⟩ ∧
+    resolvedIn (.list (.map .bool)) (.list (.map .bool)) = true ∧
     convert driverEnv 6 ⟨.list (.map .bool), .seq [.smap ["k"] [.b true]]⟩ (.list (.map .dyn)) =
       .ok ⟨.list (.map .bool), .seq [.smap ["k"] [.b true]]⟩ := by
   refine ⟨rfl, by decide, rfl⟩
